@@ -138,10 +138,12 @@ structure Variant where
   fixResolve : Bool
   fixReturn : Bool
   fixKeep : Bool := false
+  /-- (N3) `PullHandler` hands the resolved name to `PullModel` in full, not as `DisplayShortest()` -/
+  fixPullName : Bool := false
   deriving DecidableEq, Repr, Inhabited
 
-def Variant.pinned : Variant := ⟨false, false, false, false⟩
-def Variant.repaired : Variant := ⟨true, true, true, true⟩
+def Variant.pinned : Variant := ⟨false, false, false, false, false⟩
+def Variant.repaired : Variant := ⟨true, true, true, true, true⟩
 
 /-- the uninterpreted parts of the world (+ the variant of the code) -/
 structure Env where
@@ -687,6 +689,17 @@ inductive Op
 def resolveName (env : Env) (st : Store) (ord : List Name) (n : Name) : Name :=
   if env.v.fixResolve then getExistingNameFixed st.readableNames n else getExistingName ord n
 
+/-- `ParseModelPath(name.DisplayShortest())`: `DisplayShortest` drops a host that is fold-equal to
+    `registry.ollama.ai` (and then a namespace fold-equal to `library`); parsing the short form puts the
+    canonical spellings back — a name stored under `LiBRARy/` comes back as `library/` (finding N3) -/
+def displayReparse (n : Name) : Name :=
+  if foldEq n.host "registry.ollama.ai" then
+    { n with host := "registry.ollama.ai", ns := if foldEq n.ns "library" then "library" else n.ns }
+  else n
+
+/-- the name `PullModel` works on, given the name `PullHandler` resolved -/
+def pullTarget (env : Env) (n : Name) : Name := if env.v.fixPullName then n else displayReparse n
+
 def step (env : Env) (st : Store) (op : Op) (ch : Choice) : Store × List String :=
   match op with
   | .upload d c => upload env st d c
@@ -694,7 +707,7 @@ def step (env : Env) (st : Store) (op : Op) (ch : Choice) : Store × List String
   | .copy s d => copyAt st (resolveName env st ch.ord1 s) (resolveName env st ch.ord2 d)
   | .delete n => deleteAt env st (resolveName env st ch.ord1 n)
   | .prune => pruneStartup env st
-  | .pull n reg served => pullAt env st (resolveName env st ch.ord1 n) reg served
+  | .pull n reg served => pullAt env st (pullTarget env (resolveName env st ch.ord1 n)) reg served
   | .plant s d =>
     match st.man s with
     | some f => (setManifest st d f, ["ok"])
